@@ -13,9 +13,9 @@ Space
                      {(0.02,0), (0.05,0.02)}; spot 100 (thorough: also spots 1 and 2500, rates (0,0) and (0.1,0), intermediate
                      y in {0.25, 0.75, 1.35}, nine sigma values, and three more strike lattices shifted by 1/4, 1/2, 3/4 of a step).  Pricers with their default constants
                      (COS n = 10000, L = 10; FFT alpha = 1.5, eta = 0.25, N = 2^18).
-                     Vector strikes (the whole lattice in one call) and scalar strikes (every 4th lattice point in the quick
-                     tier, every point in the thorough tier, through call / put / digital / forward and through
-                     `price(Product)`; FFT: 3 resp. 5 scalar strikes, a 2^18 transform each).
+                     Vector strikes (the whole lattice in one call) and scalar strikes (every 4th lattice point; every point
+                     on the unshifted lattice of the thorough tier) through call / put / digital / forward, and through
+                     `price(Product)` and `butterfly` at three strikes; FFT: 3 resp. 5 scalar strikes, a 2^18 transform each.
  sub = "vg-cgmy"     every VG parameter set x (r,d) x T against CGMY(c = 1/nu, g = 1/eta_m, m = 1/eta_p, y = 0), the
                      parametrisation used by rpylib/tests/numerical/test_cos_method.py.
  sub = "cf-degenerate"  CFBlackScholes in its degenerate branch (sigma < 1e-8 or T < 1e-8): scalar strikes on a 9-point lattice
